@@ -54,7 +54,7 @@ def short(path):
 
 class Call:
     __slots__ = ("body", "bb", "decl", "resolved", "gargs", "args", "dest", "target", "unwind", "span",
-                 "fnptr_ty", "func", "_tname")
+                 "fnptr_ty", "func", "_tname", "ck")
 
     def __init__(self, body, bb, t):
         self.body = body
@@ -69,6 +69,7 @@ class Call:
         self.span = t["span"]
         self.fnptr_ty = t["fnptr_ty"]
         self.func = t["func"]
+        self.ck = t.get("ck")       # defining crate of the callee: core / alloc / std / <workspace crate>
         self._tname = None
 
     @property
